@@ -38,7 +38,7 @@ def thresholds(tier):
 def knobs(rng):
   return {"depth": rng.choice([0, 1, 1, 2]), "max_children": rng.choice([1, 2]), "p_struct": rng.choice([0.2, 0.5]), "p_list": 0.4,
           "p_ff": 0.25, "max_sigs": rng.choice([3, 4]), "expr_depth": rng.choice([2, 3]),
-          "p_nested_field": rng.choice([0, 0.3]), "p_list_field": rng.choice([0, 0.35]), "p_const_struct": rng.choice([0.2, 0.7]), "for_full_desc": rng.random() < 0.6}
+          "p_nested_field": rng.choice([0, 0.3]), "p_list_field": rng.choice([0, 0.35]), "p_const_struct": rng.choice([0.2, 0.7]), "avoid_const_ops": rng.random() < 0.5, "p_const_expr": 0.15, "for_full_desc": rng.random() < 0.6}
 
 
 # ---- known-finding predicates over the witness --------------------------------------------------------------------
